@@ -116,7 +116,7 @@ fn run_session(c: &WsCase) -> Observed {
                             let s = render(&r);
                             let stop = s == "Err(Disconnected)" || s == "Err(framing)" || s.starts_with("Err(transient") || s.starts_with("Err(other");
                             results.push(s);
-                            if stop || results.len() > 10_000 {
+                            if stop || results.len() > 200_000 {
                                 break;
                             }
                         }
@@ -186,7 +186,7 @@ pub fn judge(c: &WsCase, ev: &mut Local) -> Result<(), Fail> {
     let bytes = payload(c);
     match &c.raw_read_sizes {
         None => {
-            let want = model_results(&MODE, false, &[ReadStep::Data(bytes.clone())], false, 20_000);
+            let want = model_results(&MODE, false, &[ReadStep::Data(bytes.clone())], false, bytes.len() / 4 + 16);
             if o.results != want {
                 let i = (0..want.len().max(o.results.len())).find(|i| o.results.get(*i) != want.get(*i)).unwrap();
                 let sig = if o.results.last().map(|s| s != "Err(Disconnected)").unwrap_or(true) { "c20:close-not-disconnected" } else { "c20:packets-differ-from-tcp" };
@@ -369,6 +369,46 @@ pub fn ws_strategy() -> impl Strategy<Value = WsCase> {
         })
 }
 
+/// bursts: 20..200 KB of small frames in one to three binary messages (a single message far beyond every buffer involved)
+pub fn ws_burst_strategy() -> impl Strategy<Value = WsCase> {
+    (
+        prop_oneof![Just(4usize), Just(68), Just(20)],
+        20_000usize..200_000,
+        proptest::collection::vec(any::<prop::sample::Index>(), 0..3),
+        prop::option::weighted(0.3, proptest::collection::vec(prop_oneof![Just(1020usize), 500usize..4096, Just(65_536usize)], 1..3)),
+    )
+        .prop_map(|(flen, total, cuts, raw_read_sizes)| {
+            let n = total / flen;
+            let mut stream = Vec::with_capacity(n * flen);
+            for i in 0..n {
+                let f: Vec<u8> = match flen {
+                    4 => vec![4, 3, (i % 250 + 1) as u8, 3],
+                    20 => {
+                        let mut v = vec![20u8, 2, 1, 0];
+                        v.extend_from_slice(b"0.7A\0\0\0\0S3\0\0\0\0");
+                        v.push(9);
+                        v.push(0);
+                        v
+                    },
+                    _ => {
+                        // IS_MST: 64 bytes of text
+                        let mut v = vec![68u8, 13, 0, 0];
+                        v.extend((0..63).map(|k| b'a' + ((i + k) % 26) as u8));
+                        v.push(0);
+                        v
+                    },
+                };
+                stream.extend_from_slice(&f);
+            }
+            let mut at: Vec<usize> = cuts.iter().map(|ix| ix.index(stream.len() + 1)).collect();
+            at.push(0);
+            at.push(stream.len());
+            at.sort();
+            at.dedup();
+            let messages: Vec<Msg> = at.windows(2).map(|w| Msg::Binary(stream[w[0]..w[1]].to_vec())).collect();
+            WsCase { messages, writes: vec![], raw_read_sizes }
+        })
+}
 
 // ---------------------------------------------------------------------------------------
 // writes under TCP back-pressure: the peer does not read until the writer has stalled
@@ -642,7 +682,7 @@ pub fn parts() -> Vec<Box<dyn DynPart>> {
 pub fn run(run: &mut Run) {
     run.rule = "A loopback tokio-tungstenite server sends a generated frame sequence (all packet kinds, unknown types, keep-alives, \
         maximum-size frames, optionally ending mid-frame) partitioned into binary messages (one frame per message, several per message, \
-        frames split anywhere, empty messages, messages larger than 1020 bytes) with Text / Ping / Pong messages interleaved, then \
+        frames split anywhere, empty messages, messages larger than 1020 bytes, and bursts of 20..200 KB in one to three messages) with Text / Ping / Pong messages interleaved, then \
         performs a close handshake. The client wraps the socket with the crate's WebsocketStream. Oracle: packets delivered through Framed \
         equal the TCP model's list for the concatenated binary payloads and end in Disconnected; raw reads with caller buffers of 1..2048 \
         bytes return exactly the payload bytes; each Framed::write (and each keep-alive reply) reaches the server as exactly one binary \
@@ -655,6 +695,10 @@ pub fn run(run: &mut Run) {
     run.max_shrink_iters = std::env::var("VP_SHRINK").ok().and_then(|s| s.parse().ok()).unwrap_or(300);
     let n = run.budget(600, 20_000);
     run.prop(&WsSessions, ws_strategy(), n);
+    // bursts: single messages of up to 200 KB
+    run.max_shrink_iters = 8;
+    let n = run.budget(16, 300);
+    run.prop(&WsSessions, ws_burst_strategy(), n);
     // back-pressure: the harness owns the peer's schedule (it does not read until the writer stalls)
     run.max_shrink_iters = 12;
     let strat = (2_000usize..12_000, prop_oneof![Just(4096u32), Just(8192), Just(16384), Just(65536)], proptest::collection::vec(24usize..96, 1..5)).prop_map(|(packets, sndbuf, lens)| PressureCase { packets, sndbuf, lens });
